@@ -409,6 +409,38 @@ def r55(ctx, fx):
     ctx.floor(rid, 10, "to_uppercase sites in the printer")
 
 
+def r56(ctx, fx):
+    rid = ctx.rule("R5.6", "text taken from the source is kept as it was written: no function of the parser (syntax tree constructors and combinator closures; the code "
+                   "map and the Display impls, whose case normalisation R5.5 covers, aside) removes or replaces characters of a string — str::replace / replacen / "
+                   "trim* / strip_prefix / strip_suffix, String::retain / truncate / remove, a `filter` over its characters. What such a call drops from the spelling "
+                   "of a literal (digit separators, padding) is missing from the re-rendered file although the file parsed without diagnostics")
+    ALTER = ("replace", "replacen", "trim", "trim_start", "trim_end", "trim_matches", "trim_start_matches", "trim_end_matches", "strip_prefix", "strip_suffix",
+             "retain", "truncate", "remove", "filter", "drain")
+    n = 0
+    seen = {}
+    for f in sorted(fx.all_fns("mos_core"), key=lambda f: f.path):
+        if "::tests::" in f.path or "::testing" in f.path or "mos_core::parser" not in f.path or not f.d.get("hir") or f.kind == "closure":
+            continue
+        if "::code_map::" in f.path or f.path.endswith("::fmt") or "::source::" in f.path:
+            continue
+        n += 1
+        hits = []
+        for x in lib.hwalk(f.hir["body"]):
+            if x.get("k") == "mcall" and x.get("name") in ALTER:
+                rt = str(lib.strip(x["recv"]).get("ty", ""))
+                if "str" in rt or "String" in rt or "Chars" in rt or "LocatedSpan" in rt or "CharIndices" in rt:
+                    hits.append((x["name"], x.get("ln")))
+        if not hits:
+            ctx.inst(rid, f.path, nontrivial=False)
+        for name, ln in hits:
+            seen[f.path] = seen.get(f.path, 0) + 1
+            k = "%s|alters-source-text#%d" % (f.path, seen[f.path])
+            ctx.inst(rid, k, sample={"fn": f.path, "call": name, "line": ln})
+            ctx.finding(rid, k, "%s changes text taken from the source (`%s`): what it removes is accepted by the grammar, reported by no diagnostic and absent from the "
+                        "re-rendered file" % (f.path.rsplit("::", 2)[-2] + "::" + f.path.rsplit("::", 1)[-1], name), "%s:%s" % (f.file, ln))
+    ctx.floor(rid, 100, "parser bodies scanned")
+
+
 def run(ctx):
     fx = ctx.facts
     cg = lib.CallGraph(fx)
@@ -417,4 +449,5 @@ def run(ctx):
     r53(ctx, fx, cg)
     r54(ctx, fx)
     r55(ctx, fx)
+    r56(ctx, fx)
     ctx.not_decided("that the trivia parsers partition arbitrary text correctly; byte-for-byte equality of re-rendered text on concrete files")
